@@ -200,7 +200,7 @@ def sec_lattice(rep, tier):
 
     rep.under_contract(cf.Combiner.collect, cf.Combiner.light_component, cf.Combiner.heavylight_components, cf.Combiner.heavy_components)
     sy = H.Sy()
-    pre = [Not(Eq(sy.At, 0)), sy.x > 0, sy.x < 1, sy.Q2 > 0] + sy.mass_pre()
+    pre = [Not(Eq(sy.At, 0)), sy.x > 0, sy.x <= 1, sy.Q2 > 0] + sy.mass_pre()
     from pvc.core import parallel
     from pvc.explore import explore
 
